@@ -63,9 +63,21 @@ def has_abs(e, subst, depth=0):
     for x in ast.walk(e):
         if isinstance(x, ast.Call) and call_name(x) in ('abs', 'fabs'):
             return True
-        if isinstance(x, ast.Name) and x.id in subst and has_abs(subst[x.id], subst, depth + 1):
-            return True
+        if isinstance(x, ast.Name) and x.id in subst:
+            v = subst[x.id]
+            vs = v if isinstance(v, list) else [v]
+            if vs and all(has_abs(y, subst, depth + 1) for y in vs):
+                return True
     return False
+
+
+def all_assign_subst(func):
+    """name -> list of every expression assigned to it"""
+    out = {}
+    for n in ast.walk(func):
+        if isinstance(n, ast.Assign) and isinstance(n.targets[0], ast.Name):
+            out.setdefault(n.targets[0].id, []).append(n.value)
+    return out
 
 
 def run(prog, check):
@@ -81,8 +93,9 @@ def run(prog, check):
     nq = 0
     for f in [x for x in prog.all_functions() if x.module is m]:
         subst = single_assign_subst(f.node)
+        multi = all_assign_subst(f.node)
         for n in ast.walk(f.node):
-            if isinstance(n, ast.BinOp) and isinstance(n.op, ast.Div) and has_abs(n.left, subst):
+            if isinstance(n, ast.BinOp) and isinstance(n.op, ast.Div) and has_abs(n.left, multi):
                 ok = nonneg(n.right, subst)
                 nq += 1
                 check.ob('C15.R1', '%s::quotient(%s)' % (f.key, unparse(n)), ok, '%s:%d' % (f.module.rel, n.lineno),
@@ -116,10 +129,11 @@ def run(prog, check):
              'working solver is a deep copy (%s)' % how if deep else 'working solver is not a deep copy of self (%s)' % how,
              'any search: the parser / exogenous lists of the original solver would be overwritten')
     series_loops = [n for n in ast.walk(ss.node) if isinstance(n, ast.For) and any(
-        isinstance(x, ast.Subscript) and isinstance(x.slice, ast.UnaryOp) for x in ast.walk(n))]
+        isinstance(x, ast.Subscript) and isinstance(x.slice, ast.UnaryOp) for x in ast.walk(n)) and any(
+        isinstance(x, ast.Compare) and any(isinstance(y, ast.Attribute) and 'Toler' in y.attr for y in ast.walk(x)) for x in ast.walk(n))]
     if not series_loops:
         raise AnalysisError('acceptance loop not found in ' + ss.qualname)
-    loop = series_loops[-1]
+    loop = series_loops[0]
     lv = target_names(loop.target)[0]
     lastprev = {}
     for n in ast.walk(loop):
@@ -221,7 +235,7 @@ def run(prog, check):
                isinstance(n.ast.targets[0], ast.Subscript) and 'TimeSeries' in unparse(n.ast.targets[0]) and
                unparse(n.ast.targets[0]).startswith('self.')]
     hdr = [n for n in g.nodes if n.kind == 'for' and n.stmt is loop][0]
-    ok = bool(install) and bool(flag_nodes)
+    ok = bool(flag_nodes)
     flag_names = {nm for fl in flag_nodes for nm in target_names(fl.ast.targets[0])}
 
     def edge_ok(a, b, lab):
@@ -243,6 +257,38 @@ def run(prog, check):
     check.ob('C15.R3', '%s::flagged-variable-not-installed' % ss.key, ok, '%s:%d' % (ss.module.rel, loop.lineno),
              'a variable flagged as not converged is never installed as k=0 value' if ok else
              'a flagged variable can still be installed (or flag / install sites not found)', 'a drifting variable')
+    # ---- R5: every variable that was checked and accepted is installed ------------------------------------
+    all_install = [n for n in g.stmt_nodes() if n.kind == 'stmt' and isinstance(n.ast, ast.Assign) and
+                   isinstance(n.ast.targets[0], ast.Subscript) and 'TimeSeries' in unparse(n.ast.targets[0]) and
+                   unparse(n.ast.targets[0]).startswith('self.') and linform(n.ast.targets[0].slice) is not None and
+                   lin_eq(linform(n.ast.targets[0].slice), {'': 0})]
+    for n in all_install:
+        loops_n = [l for l in n.loops if isinstance(l, ast.For)]
+        same_loop = loop in loops_n
+        same_coll = bool(loops_n) and unparse(loops_n[-1].iter) == unparse(loop.iter)
+        ok = same_loop or same_coll
+        check.ob('C15.R5', '%s::installed-set-is-checked-set' % ss.key, ok, '%s:%d' % (ss.module.rel, n.line),
+                 'the k=0 values are installed for exactly the variables that were tested' if ok else
+                 'k=0 values are installed in a loop over `%s` while the steadiness test ranges over `%s`: variables outside the former '
+                 '(decorative ones under the default equation reduction) are reported steady but keep their old k=0 value'
+                 % (unparse(loops_n[-1].iter) if loops_n else '?', unparse(loop.iter)),
+                 'equation reduction on (default) and a variable nothing else depends on (a balance, a ratio)')
+        # the value installed is the copy's last value of the same variable
+        lvn = target_names(loops_n[-1].target)[0] if loops_n else None
+        v = n.ast.value
+        if isinstance(v, ast.Name) and v.id in subst and v.id not in lastprev:
+            v = subst[v.id]
+        if isinstance(v, ast.Name) and v.id in lastprev:
+            i_, base_ = lastprev[v.id]
+            v_ok = i_ == -1
+        else:
+            v_ok = isinstance(v, ast.Subscript) and isinstance(v.slice, ast.UnaryOp) and unparse(v.slice) == '-1' and copy_name in unparse(v)
+        key_ok = lvn is not None and unparse(n.ast.targets[0].value.slice) == lvn
+        check.ob('C15.R5', '%s::installed-value-is-last-point' % ss.key, bool(v_ok and key_ok), '%s:%d' % (ss.module.rel, n.line),
+                 'the value installed for a variable is the last point of its own searched series' if (v_ok and key_ok) else
+                 'the value installed is `%s` for key `%s`' % (unparse(n.ast.value), unparse(n.ast.targets[0])), 'any accepted search')
+    check.ob('C15.R5', '%s::install-present' % ss.key, bool(all_install), ss.where,
+             'accepted values are written to TimeSeries[var][0]' if all_install else 'nothing is installed after a successful search', '')
     appended = all(any(b.id in g.reach([fl], avoid={hdr.id}) for b in g.stmt_nodes() if b.kind == 'stmt' and any(
         isinstance(c, ast.Call) and call_name(c) == 'append' and isinstance(c.func.value, ast.Name) and c.func.value.id == bl
         for c in ast.walk(b.ast))) for fl in flag_nodes) and bool(flag_nodes)
@@ -279,7 +325,8 @@ def run(prog, check):
     check.ob('C15.R3', '%s::convergence-error-is-value-error' % ss.key, conv, ss.where,
              'a ConvergenceError during the search is re-raised as a value error' if conv else
              'a ConvergenceError during the search is swallowed or not converted', 'a system that does not converge in the search')
-    check.floor('C15.R1', 2)
+    check.floor('C15.R1', 1)
+    check.floor('C15.R5', 3)
     check.floor('C15.R2', 3)
     check.floor('C15.R3', 5)
     check.floor('C15.R4', 3)
